@@ -13,6 +13,7 @@
 """
 import copy
 import json
+import re
 from concurrent.futures import ThreadPoolExecutor
 
 from harness.core import (MachineryError, model_check, read_events, require, run_driver, seed, spec_mutant, validate_trace,
@@ -77,7 +78,7 @@ def _corrupted(z3evs, syevs):
         res.append((c, "SymPySound"))
     # an accepted interval goal (1 - x * x > 0 on some interval inside [-1, 1]) whose recorded interval is replaced by [-2, 3]
     for c in _find(syevs, lambda e: e["solver"] == "sympy.interval" and e["acc"] == "yes"
-                   and "|- (((uminus (x * x)) + (1::real)) > (0::real))" in e["key"], 2):
+                   and "|- (((uminus (x * x)) + (1::real)) > (0::real)) [" in e["key"], 2):
         c["prems"][0][4][1] = ["op", "real_closed_interval", "(real set)", 0,
                                [["op", "uminus", "real", 0, [["num", "", "real", 2, []]]], ["num", "", "real", 3, []]]]
         res.append((c, "SymPySound"))
@@ -135,8 +136,22 @@ def run(rep, tier):
         require(nvec == r.distinct, "C06: the emitted universe (%d) is not the explored state space (%d)" % (nvec, r.distinct))
         rep.exhaustive = True
         rep.notes["vectors"] = nvec
-        if '<<"vectors"' in r.out:
-            rep.notes["universe"] = r.out[r.out.find('<<"vectors"'):].split(">>")[0].replace("<<", "").strip()
+        m = re.search(r'<<\s*"vectors"[^>]*>>', r.out)
+        require(m is not None, "C06_Bridge did not print the universe statistics")
+        stat = [x.strip().strip('"') for x in m.group(0).replace("<<", "").replace(">>", "").split(",")]
+        rep.notes["universe"] = dict(zip(stat[0::2], [int(x) for x in stat[1::2]]))
+        u = rep.notes["universe"]
+        # no vacuous oracle invariant / no untaken action: binders decided over witness intervals, binders in negative positions
+        require(u["anchors_in_universe"] >= 8 and u["with_a_binder_decided_over_a_witness_interval"] >= nvec // 4
+                and u["with_a_binder_under_negation_or_left_of_implies"] >= nvec // 8, "C06: universe too poor (vacuity guard): %s" % u)
+        tops = {}
+        for ln in open(vec):
+            j = json.loads(ln)["f"]
+            k = j[0] if j[0] != "op" else j[1]
+            tops[k] = tops.get(k, 0) + 1
+        rep.notes["universe_top_connectives"] = tops
+        require(all(tops.get(k, 0) > 0 for k in ("neg", "all", "exists", "conj", "disj", "implies", "equals")),
+                "C06: an action of C06_Bridge was never taken: %s" % tops)
         # ---- spec -> code
         parts = [wd / ("z3vec_%d.ndjson" % k) for k in range(nparts)]
         fs = [ex.submit(run_driver, "c06", ["z3vec", vec, parts[k], k, nparts], timeout=7200) for k in range(nparts)]
